@@ -1276,6 +1276,20 @@ func checkReverse(ctx context.Context, r *simkit.Run, w *world, obs *sql.DB, pla
 					}
 				}
 			}
+			// And a third one (the C17 face of C03's user-index-named-like-a-constraint-index): the
+			// reverse statements themselves create two indexes of one name, because the table held a
+			// constraint's index under its normalised name next to an index that really has that name.
+			if m := reCreateIdx.FindStringSubmatch(s); m != nil && strings.Contains(err.Error(), "already exists") {
+				n := 0
+				for _, x := range rev {
+					if f := reCreateIdx.FindStringSubmatch(x); f != nil && f[1] == m[1] {
+						n++
+					}
+				}
+				if n >= 2 {
+					sig = "reverse-statement-fails/two-indexes-share-a-normalised-name"
+				}
+			}
 			r.Fail(prop, "down", sig, "step %d: reverse statement fails: %v\nstatement: %s\nplan:\n%s", step, err, s, planText(plan))
 			return
 		}
